@@ -105,7 +105,10 @@ TVCall == /\ l <= Len(Rec) /\ Rec[l].ev = "call"
                  fx == FeExpect(fe, e.op, e.cls, v)
                  o == SessOutcome(fe, srv, devPF, e.op, e.cls, v, e.h, e.shape)
                  gated == e.cls \notin LocalRejectClasses(e.op) /\ ~FeGateOK(fe, e.op, e.cls)
-                 crash == IF e.res = "panic" THEN {"C06/panic/frontend/" \o e.op} ELSE {}
+                 crash == (IF e.res = "panic" THEN {"C06/panic/frontend/" \o e.op} ELSE {})
+                          \* whatever the call does (sent, refused, in whichever wire form): a descriptor lent to it stays open
+                          \cup (IF ~e.lent_ok THEN {"C09/frontend/lent-descriptor-closed/" \o e.op \o "/" \o e.cls,
+                                                    "C02/lent-descriptor-closed/" \o e.op \o "/" \o e.cls} ELSE {})
              IN /\ viol' = AddViol(viol, C02Viol(e, fx, o) \cup C07Viol(e, gated) \cup C03Viol(e, fx, o) \cup crash, cur)
                 /\ fe' = SessNextFe(fe, e.op, e.cls, v, devPF, e.res = "ok")
                 /\ srv' = SessNextSrv(fe, srv, devPF, e.op, e.cls, v, e.h)
